@@ -322,7 +322,7 @@ func (ss *SpecSet) loadFile(path, pkgPath string) error {
 				}
 			case "modifies":
 				cur.HasMod = true
-				for _, m := range strings.Split(rest, ",") {
+				for _, m := range splitTop(rest, ',') {
 					if m = strings.TrimSpace(m); m != "" && m != "nothing" {
 						cur.Modifies = append(cur.Modifies, m)
 					}
